@@ -1,38 +1,29 @@
-(** C17 model, part (ii) continued: the values on which the JSON round trip is exact
-    ([plain_json]) and what a value reads back as ([norm]).  Executable definitions only. *)
+(** C17 model, part (ii) continued: the representation invariants under which the JSON round
+    trip of the CURRENT representation is exact ([repr_ok]) and what a value reads back as
+    ([norm]).  Executable definitions only. *)
 From Coq Require Import List NArith Bool.
 From UV Require Import Base.Value Model.Uasm Model.UasmValue.
 Import ListNotations.
 Open Scope N_scope.
 
-(** the strings that F64Rep reserves for its unit variants *)
-Definition is_spelling (s : text) : bool :=
-  text_eqb s S_NAN || text_eqb s S_W || text_eqb s S_EMPTY || text_eqb s S_TOMB ||
-  text_eqb s S_INF || text_eqb s S_NINF.
-Definition finite (x : f64) : bool := f_mag x <? F_INF_BITS.
-
-(** - bytes are bytes;
-    - a character LIST (the only character arrays written as a bare JSON string) is not a
-      reserved spelling (else: C17_value_json_refuted_string);
-    - complex parts are finite (else: C17_value_json_refuted_complex);
-    labels and map keys are not part of [value] (for char-keyed maps over an empty box array see
-    C17_value_json_refuted_map). *)
-Fixpoint plain_json (v : value) : bool :=
+(** bytes are bytes and binary64 patterns are 64-bit patterns (invariants of the encoding of
+    uiua values as [value] terms, not conditions on the uiua value) *)
+Definition f64_ok (x : f64) : bool := x <? 18446744073709551616.
+Fixpoint repr_ok (v : value) : bool :=
   match v with
-  | VNum _ _ => true
+  | VNum _ d => forallb f64_ok d
   | VByte _ d => forallb (fun x => x <=? 255) d
-  | VChar sh d => match sh with [_] => negb (is_spelling d) | _ => true end
-  | VCplx _ d => forallb (fun c => finite (fst c) && finite (snd c)) d
-  | VBox _ d => forallb plain_json d
+  | VChar _ _ => true
+  | VCplx _ d => forallb (fun c => f64_ok (fst c) && f64_ok (snd c)) d
+  | VBox _ d => forallb repr_ok d
   end.
 
-(** what a value reads back as: an empty number array comes back with byte storage (equal as a
-    uiua value, same shape, both "number"), a NaN that is not one of the three reserved NaNs comes
-    back as f64::NAN (payload and sign are not kept) *)
+(** what a value reads back as: itself, except that an EMPTY number array comes back with byte
+    storage (the JSON text [] is tried as a byte list first; equal as a uiua value, same shape,
+    both of type "number").  Every NaN keeps its sign and payload. *)
 Fixpoint norm (v : value) : value :=
   match v with
   | VNum sh [] => VByte sh []
-  | VNum sh d => VNum sh (map canon_f d)
   | VBox sh d => VBox sh (map norm d)
   | _ => v
   end.
@@ -42,3 +33,6 @@ Fixpoint vdepth (v : value) : nat :=
   | VBox _ d => S (fold_right (fun x n => Nat.max (vdepth x) n) 0%nat d)
   | _ => 1%nat
   end.
+
+(** the values the representation BEFORE c00f690 / 6da1960 / 1df8995 could not carry *)
+Definition finite (x : f64) : bool := f_mag x <? F_INF_BITS.
